@@ -229,6 +229,10 @@ Proof.
   apply RowStr; auto.
 Qed.
 
+(* the model's result is a row of the table *)
+Lemma cast_rows_l : H1 pf -> forall x r t, cast_row pf skip o x r t (cast pf skip o x r t).
+Proof. intros Hpf x r t. rewrite (cast_spec_l Hpf). apply cast_table_rows. Qed.
+
 (* ---------------- consequences ---------------- *)
 Lemma cast_plain x r t : plain (cast pf skip o x r t) = true.
 Proof.
